@@ -31,6 +31,7 @@ const maxTxnItems = 6
 var etcdGhosts = map[string]string{
 	"etcdhas": "bool", "etcdval": "int", "etcdlease": "int",
 	"etcdhas0": "bool", "etcdval0": "int", "etcdlease0": "int",
+	"evclock": "int", "evlast": "int", "evres": "int", // ghost event clock (see `event` contract option)
 	"etcdn": "int", // etcdn[0] = transactions committed by this process, etcdn[1] = those that changed the store
 }
 
@@ -211,12 +212,6 @@ func init() {
 // transaction's ghost list `kind`; a new handle is returned (the real client returns the same object).
 func (s *Session) txnAppend(fr *Frame, recv Val, items Val, st *State, kind string, cc *ssa.CallCommon) Val {
 	h := recv.T0()
-	n, ok := s.knownLen(items)
-	if !ok {
-		s.note("etcd transaction built from a list of symbolic length in %s: transaction contents unknown", fr.fn.String())
-		s.havocAll(st)
-		return scalar(cc.Signature().Results().At(0).Type(), h)
-	}
 	var et types.Type
 	var fields [4]string
 	if kind == "cmp" {
@@ -229,15 +224,35 @@ func (s *Session) txnAppend(fr *Frame, recv Val, items Val, st *State, kind stri
 	cnt := s.txnCnt(st, "n"+kind)
 	base := Select(cnt, h)
 	names := [4]string{"a", "b", "c", "d"}
-	for i := 0; i < n; i++ {
-		el := s.load(st, &Loc{Kind: "A", TypeKey: typeKey(et), Ref: items.L[0], Idx: []T{Add(items.L[1], I(int64(i)))}, Typ: et})
-		for f := 0; f < 4; f++ {
-			arr := s.txnArr(st, kind+":"+names[f], SInt)
-			v := el.L[leafIdx(et, fields[f])]
-			st.Heap["X:txn:"+kind+":"+names[f]] = s.define("G", Store(arr, h, Store(Select(arr, h), Add(base, I(int64(i))), v)))
+	n, ok := s.knownLen(items)
+	if ok {
+		for i := 0; i < n; i++ {
+			el := s.load(st, &Loc{Kind: "A", TypeKey: typeKey(et), Ref: items.L[0], Idx: []T{Add(items.L[1], I(int64(i)))}, Typ: et})
+			for f := 0; f < 4; f++ {
+				arr := s.txnArr(st, kind+":"+names[f], SInt)
+				v := el.L[leafIdx(et, fields[f])]
+				st.Heap["X:txn:"+kind+":"+names[f]] = s.define("G", Store(arr, h, Store(Select(arr, h), Add(base, I(int64(i))), v)))
+			}
 		}
+		st.Heap["X:txn:n"+kind] = s.define("G", Store(cnt, h, Add(base, I(int64(n)))))
+		return scalar(cc.Signature().Results().At(0).Type(), h)
 	}
-	st.Heap["X:txn:n"+kind] = s.define("G", Store(cnt, h, Add(base, I(int64(n)))))
+	// symbolic number of items: positions 0..maxTxnItems-1 are filled pointwise (Commit only looks at those;
+	// a longer list fails the txnsize obligation there)
+	ln := items.L[2]
+	for f := 0; f < 4; f++ {
+		arr := s.txnArr(st, kind+":"+names[f], SInt)
+		inner := Select(arr, h)
+		for p := 0; p < maxTxnItems; p++ {
+			pos := I(int64(p))
+			rel := s.define("rel", Sub(pos, base))
+			el := s.load(st, &Loc{Kind: "A", TypeKey: typeKey(et), Ref: items.L[0], Idx: []T{Add(items.L[1], rel)}, Typ: et})
+			v := el.L[leafIdx(et, fields[f])]
+			inner = Store(inner, pos, Ite(And(Le(base, pos), Lt(rel, ln)), v, Select(Select(arr, h), pos)))
+		}
+		st.Heap["X:txn:"+kind+":"+names[f]] = s.define("G", Store(arr, h, inner))
+	}
+	st.Heap["X:txn:n"+kind] = s.define("G", Store(cnt, h, Add(base, ln)))
 	return scalar(cc.Signature().Results().At(0).Type(), h)
 }
 
